@@ -4,6 +4,19 @@ SHAPE_NOTE = ("Container shapes in the typing context are fixed and small while 
               "(floats as reals); pyvc itself is trusted (cross-checked against CPython on solver-generated inputs each run).")
 
 META = {
+    "C10": {
+        "text": "Proved (layout logic): for every atom_site row in the documented domain, cif.atom_site_line followed by "
+                "pdb.ATOM / HETATM yields name, alternate location, residue name, chain, number, insertion code, "
+                "coordinates, occupancy, B factor, element and formal charge equal to the row's items, for the literal "
+                "('.', '?') and the mmcif-pdbx 2.x ('', None) missing-value conventions alike; count_models returns the "
+                "distinct model numbers in file order. From the record list on, the pipeline is the same code as for PDB "
+                "input. A bounded experiment runs 8 structures (alternate locations, insertion codes, formal charges, "
+                "four-character names, ensembles incl. models [9,10] and [1..12]) through both encodings with an "
+                "independent mmCIF writer.",
+        "note": "The genuine defect behind this property (0 atoms from any mmCIF with the installed parser) was repaired in "
+                "one commit. Chain ids are taken from label_asym_id as before (one character assumed); the pdbx parser "
+                "itself is external (stubbed by a dict in the contract). " + SHAPE_NOTE,
+    },
     "C03": {
         "text": "Level 'other': the bookkeeping functions are proved (partition into written/unassigned, one record per "
                 "written atom in order, map/list agreement of Residue.remove_atom/rename_atom, the driver serialises exactly "
